@@ -273,6 +273,38 @@ class C23(Property):
                     return ctx.violation("aperture-ensemble-member-differs-from-scalar-run", c, {"shape": list(k.shape)})
                 if k.min() < 0 or k.max() > 1:
                     return ctx.violation("aperture-out-of-unit-interval", c, {"min": float(k.min()), "max": float(k.max())})
+            elif chk == "other-apertures":
+                # every BaseAperture subclass: |transmission| <= 1 (complex phase plates included); only `Aperture` is covered by theorems
+                cut = ufx(c["cutoff"])
+                r = [ufx(v) for v in c["r"]]
+                mk = {
+                    "Bullseye": lambda: tr.Bullseye(1 + int(r[0] * 6), 0.5 + 5 * r[1], 1 + int(r[2] * 4), 0.2 * cut * (0.2 + r[3]), cut, energy=energy, **grid),
+                    "Vortex": lambda: tr.Vortex(int(r[0] * 7) - 3, cut, energy=energy, **grid),
+                    "AnnularAperture": lambda: tr.AnnularAperture(cut * r[0], cut, energy=energy, **grid),
+                    "Zernike": lambda: tr.Zernike(cut * r[0] * 0.5, (r[1] - 0.5) * 2 * math.pi, cut, energy=energy, **grid),
+                    "RadialPhasePlate": lambda: tr.RadialPhasePlate(1 + int(r[0] * 5), cut, phase_shift=(r[1] - 0.5) * 2 * math.pi, energy=energy, **grid),
+                }[c["cls"]]
+                k = np.asarray(mk()._evaluate_kernel())
+                m = np.abs(k)
+                if not np.isfinite(m).all() or m.max() > 1 + (1e-12 if c["precision"] == "float64" else 1e-6):
+                    return ctx.violation(f"{c['cls']}-transmission-exceeds-one", c, {"max_abs": float(m.max())})
+                if not np.iscomplexobj(k) and k.min() < 0:
+                    return ctx.violation(f"{c['cls']}-transmission-negative", c, {"min": float(k.min())})
+            elif chk == "ctf-wiener":
+                # wiener_snr != 0: the Wiener expression is applied to the complex transfer function and is NOT bounded by the aperture
+                # (known finding, witness theorem wiener_complex_exceeds_one).  The key is only used when the same CTF without the
+                # Wiener filter does respect the bound, i.e. when the excess is really due to the Wiener branch.
+                kw = dict(semiangle_cutoff=ufx(c["cutoff"]), soft=c["soft"], energy=energy, focal_spread=ufx(c["focal"]),
+                          angular_spread=ufx(c["spread"]), aberration_coefficients={s: ufx(v) for s, v in c["coeffs"].items()}, **grid)
+                a = np.asarray(tr.Aperture(ufx(c["cutoff"]), soft=c["soft"], energy=energy, **grid)._evaluate_kernel())
+                plain = np.abs(np.asarray(tr.CTF(**kw)._evaluate_kernel()))
+                if np.any(plain > a + eps):
+                    return ctx.violation("ctf-transmits-more-than-its-aperture", c, {"max_excess": float((plain - a).max())})
+                w = np.abs(np.asarray(tr.CTF(wiener_snr=ufx(c["snr"]), **kw)._evaluate_kernel()))
+                if not np.isfinite(w).all() or np.any(w > a + eps):
+                    i = int(np.nanargmax(np.where(np.isfinite(w), w - a, np.inf)))
+                    return ctx.violation("ctf-wiener-filter-exceeds-aperture-bound", c,
+                                         {"ctf_abs": float(w.reshape(-1)[i]), "aperture": float(a.reshape(-1)[i]), "wiener_snr": ufx(c["snr"])})
             elif chk == "temporal-kernel":
                 te = tr.TemporalEnvelope(focal_spread=ufx(c["focal"]), energy=energy, **grid)
                 alpha, phi = te._angular_grid("cpu")
@@ -352,15 +384,19 @@ class C23(Property):
                  cutoff=fx(rng.uniform(1.0, 45.0)), soft=rng.random() < 0.6)
         if chk == "cutoff-ensemble":
             c.update(cutoffs=[fx(rng.uniform(1.0, 45.0)) for _ in range(rng.randint(1, 3))], grid=rng.random() < 0.7)
+        if chk == "other-apertures":
+            c.update(cls=rng.choice(["Bullseye", "Vortex", "AnnularAperture", "Zernike", "RadialPhasePlate"]), r=[fx(rng.random()) for _ in range(4)])
+        if chk == "ctf-wiener":
+            c["snr"] = fx(rng.choice([1.0, rng.uniform(0.2, 10.0), 4.0]))
         if chk == "explicit-angles":
             c.update(a0=fx(rng.uniform(0.2, 3.0)), a1=fx(rng.uniform(0.2, 3.0)), phi=fx(rng.uniform(-math.pi, math.pi)))
-        if chk in ("temporal-kernel", "ctf-kernel"):
+        if chk in ("temporal-kernel", "ctf-kernel", "ctf-wiener"):
             c["focal"] = fx(rng.choice([rng.uniform(0, 150), 0.0, -rng.uniform(0, 50)]))
         if chk == "spatial-gradient":
             c["precision"] = "float64"
             c["alpha"] = [fx(rng.uniform(0, 0.03)) for _ in range(12)]
             c["phi"] = [fx(rng.uniform(-math.pi, math.pi)) for _ in range(12)]
-        if chk in ("spatial-kernel", "ctf-kernel", "spatial-gradient"):
+        if chk in ("spatial-kernel", "ctf-kernel", "spatial-gradient", "ctf-wiener"):
             c["spread"] = fx(rng.choice([rng.uniform(0, 4), 0.0, rng.uniform(0, 0.5)]))
             c["coeffs"] = {k: fx(v) for k, v in gen_coeffs(rng, rng.choice([0.15, 0.5, 1.0])).items()}
         if chk == "ctf-kernel":
@@ -371,7 +407,7 @@ class C23(Property):
 
     def conformance(self, ctx: Ctx):
         for chk, n in (("explicit-angles", ctx.n(40, 800)), ("cutoff-ensemble", ctx.n(30, 500)), ("aperture-kernel", ctx.n(80, 1500)), ("temporal-kernel", ctx.n(40, 800)),
-                       ("spatial-kernel", ctx.n(50, 1000)), ("spatial-gradient", ctx.n(50, 1000)), ("ctf-kernel", ctx.n(80, 1500))):
+                       ("spatial-kernel", ctx.n(50, 1000)), ("spatial-gradient", ctx.n(50, 1000)), ("ctf-kernel", ctx.n(80, 1500)), ("other-apertures", ctx.n(60, 1200)), ("ctf-wiener", ctx.n(12, 100))):
             for _ in range(n):
                 c = self.gen_conf(ctx, chk)
                 self.oracle(ctx, c)
